@@ -854,6 +854,11 @@ def parse_tree_to_objgraph(
 
             if (
                 current_metaclass_of_obj._tx_fqn != metaclass_of_grammar_rule._tx_fqn
+                # processors are registered by the simple rule name: rules of
+                # the same name from different grammars (namespaces) share one
+                # processor, which is called once, below
+                and current_metaclass_of_obj.__name__
+                != metaclass_of_grammar_rule.__name__
                 and metamodel.has_obj_processor(current_metaclass_of_obj.__name__)
             ):
                 # This can happen if grammar rule is abstract or if model is
